@@ -196,8 +196,9 @@ def evalsInnerProduct (evalsSet : List (List F)) (scalars : List F) : Option (Li
       if es.1.length < res.length then none
       else some (List.zipWith (fun r e => r + e * es.2) res es.1)) (List.replicate e0.length 0)
 
-/-- `arithmetic.rs: msm_inner_product(msms, scalars)`: every MSM scaled, all concatenated
-(MSMs beyond the scalars are dropped by the `zip`). -/
+/-- `arithmetic.rs: msm_inner_product(msms, scalars)`: every MSM scaled (`kzg/msm.rs:
+MSMKZG::scale` multiplies every scalar by the factor), all concatenated in order (scalars, bases
+and `labels` extended alike; MSMs beyond the scalars are dropped by the `zip`). -/
 def msmInnerProduct (msms : List (List (F × Base))) (scalars : List F) : List (F × Base) :=
   ((msms.zip scalars).map (fun ms => ms.1.map (fun t => (t.1 * ms.2, t.2)))).flatten
 
@@ -238,7 +239,8 @@ def fEvalStep (inv : F → F) (x2 x3 : F)
 
 /-- The body of `multi_prepare` after the grouping: `groups[i]` = the points of set `i` and, for
 every commitment opened at exactly these points, its MSM terms and its evaluations (in the order
-of the points). -/
+of the points). The result is `DualMSM { left: π, right: final_com }` after
+`right.add_msm(&scaled_pi)` (`MSMKZG::add_msm` appends `[x₃·π, v·(−G)]`). -/
 def prepareGroups (inv : F → F) (groups : List (List F × List (List (F × Base) × List F)))
     (proof : ProofView F) (x1 x2 x3 x4 : F) : Except VerifierErr (DualMSM F) :=
   let nsets := groups.length
@@ -265,7 +267,8 @@ def prepareGroups (inv : F → F) (groups : List (List F × List (List (F × Bas
         if ¬ proof.hasPi then .error .sampling else
         .ok { left := [((1 : F), Base.pi)], right := finalCom ++ [(x3, Base.pi), (v, Base.negG)] }
 
-/-- The MSM of one commitment in `multi_prepare` (`com_data.commitment.as_terms(eval_point_opt)`),
+/-- The MSM of one commitment in `multi_prepare` (`MSMKZG::init()`, then `append_term` for every
+term of `com_data.commitment.as_terms(eval_point_opt)`; the branch is `query.rs: is_chopped`),
 with its set index and evaluations; `none` = an assertion or index panics. A chopped commitment is
 evaluated at the single point of its point set. -/
 def comMsm (debugAssertions : Bool) (pointSets : List (List F)) (d : CommitmentData ComRef F) :
@@ -289,6 +292,51 @@ def multiPrepare (inv : F → F) (debugAssertions : Bool) (queries : List (Query
     | some msms =>
       let groups := pointSets.zipIdx.map (fun pi => (pi.1, (msms.filter (fun t => t.1 = pi.2)).map (fun t => t.2)))
       prepareGroups inv groups proof x1 x2 x3 x4
+
+/-- The intermediate scalars of `multi_prepare` (what the add-only trace hook
+`kzg/verif_hooks.rs: VerifPrepareTrace` records): `powers_x1`, the `x₁`-combined `q_eval_sets`,
+every `r_eval` in the order of the `f_eval` fold (last point set first), `f_eval`, `v`. -/
+structure PrepTrace (F : Type) where
+  powersX1 : List F
+  qEvalSets : List (List F)
+  rEvals : List F
+  fEval : F
+  v : F
+
+/-- The same computation as `prepareGroups`, returning the intermediate scalars instead of the
+dual MSM (`none` where `prepareGroups` does not reach `v`). -/
+def prepareTrace (inv : F → F) (groups : List (List F × List (List (F × Base) × List F)))
+    (proof : ProofView F) (x1 x2 x3 x4 : F) : Option (PrepTrace F) :=
+  let nsets := groups.length
+  let nb := (groups.map (fun g => g.2.length)).foldl max 0
+  let powersX1 := powersN x1 nb 1
+  match groups.mapM (fun g => evalsInnerProduct (g.2.map (·.2)) powersX1) with
+  | none => none
+  | some qEvalSets =>
+    if ¬ proof.hasF then none else
+    if proof.qEvals.length < nsets then none else
+    let qEvalsOnX3 := proof.qEvals.take nsets
+    match ((groups.zip qEvalSets).zip qEvalsOnX3).foldr (fEvalStep inv x2 x3) (some 0) with
+    | none => none
+    | some fEval =>
+      match innerProductScalars (qEvalsOnX3 ++ [fEval]) x4 with
+      | none => none
+      | some v =>
+        let rEvals := (groups.zip qEvalSets).reverse.filterMap (fun gq =>
+          (lagrangeInterpolate inv gq.1.1 gq.2).map (fun r => evalPoly r x3))
+        some { powersX1, qEvalSets, rEvals, fEval, v }
+
+/-- `multi_prepare` up to `v`, returning the trace (grouping and `as_terms` as in `multiPrepare`). -/
+def multiPrepareTrace (inv : F → F) (debugAssertions : Bool) (queries : List (Query ComRef F F))
+    (proof : ProofView F) (x1 x2 x3 x4 : F) : Option (PrepTrace F) :=
+  match constructIntermediateSets (0 : F) queries with
+  | none => none
+  | some (cm, pointSets) =>
+    match cm.mapM (comMsm debugAssertions pointSets) with
+    | none => none
+    | some msms =>
+      let groups := pointSets.zipIdx.map (fun pi => (pi.1, (msms.filter (fun t => t.1 = pi.2)).map (fun t => t.2)))
+      prepareTrace inv groups proof x1 x2 x3 x4
 
 /-- Value of an MSM on discrete logarithms. -/
 def msmLog (dlog : Base → F) (m : List (F × Base)) : F :=
